@@ -130,4 +130,70 @@ theorem reachR_inv {c : Config} {s : State} {C W : Nat} {U : Prop} (r : ReachR c
       rw [discarded_other s o out hro', Nat.add_zero]
       exact ⟨RInv.of_rvw hv i, fun u => Bal.of_rvw hv (b u.1)⟩
 
+/-- configured window plus unpaid shrink debt never exceeds the largest window configured so far
+    (an expansion first cancels unpaid debt) -/
+theorem reachR_window {c : Config} {s : State} {C W : Nat} {U : Prop} (r : ReachR c s C W U) :
+    s.receiveWindow + s.receiveWindowShrinkDebt ≤ W := by
+  induction r with
+  | init h0 =>
+    have hcore := congrArg RView.core (new_rvw h0)
+    simp only [State.rvw, State.rcore, RCore.mk.injEq] at hcore
+    omega
+  | step r hr hs ih =>
+    rename_i s s' C W U o out
+    have hmono : ∀ {x : State}, WDV s.wdv x.wdv → ∀ n, x.receiveWindow + x.receiveWindowShrinkDebt ≤ Nat.max W n := by
+      intro x hx n
+      have h1 : x.receiveWindow = s.receiveWindow := hx.1
+      have h2 : x.receiveWindowShrinkDebt ≤ s.receiveWindowShrinkDebt := hx.2
+      simp only [natMax_eq]; omega
+    by_cases hro : o.isRecvOp = true
+    · cases o <;> simp [Op.isRecvOp] at hro
+      case stream id off len fin =>
+        unstep hs; obtain ⟨s1, res, h1, rfl, _⟩ := hs; exact hmono (wdv_received h1) _
+      case rst id code fo =>
+        unstep hs; obtain ⟨s1, res, h1, rfl, _⟩ := hs; exact hmono (wdv_receivedReset h1) _
+      case read id budget =>
+        unstep hs; obtain ⟨s1, res, h1, rfl, _⟩ := hs; exact hmono (wdv_read h1) _
+      case stop id code =>
+        unstep hs; obtain ⟨s1, ok, h1, rfl, _⟩ := hs; exact hmono (wdv_stop h1) _
+      case recvReset id =>
+        unstep hs; obtain ⟨s1, res, h1, rfl, _⟩ := hs; exact hmono (wdv_recvReceivedReset h1) _
+      case recvWindow n =>
+        unstep hs; obtain ⟨rfl, _⟩ := hs
+        exact setReceiveWindow_wd s n W ih
+      case ctrl =>
+        unstep hs; obtain ⟨s1, fs, h1, rfl, _⟩ := hs
+        have hc : s1.rcore = s.rcore := by
+          -- the flush touches neither the window nor the debt (no invariant needed for that)
+          unfold State.writeControlFrames at h1
+          dsimp only at h1
+          split at h1
+          · contradiction
+          · rename_i s3 msd hm
+            simp only [Option.some.injEq, Prod.mk.injEq] at h1
+            rw [← h1.1]
+            have e1 : ∀ (x : State) (d : Dir), (x.ctrlMaxStreams d).1.rcore = x.rcore := by
+              intro x d; unfold State.ctrlMaxStreams; split <;> rfl
+            have e2 : ∀ (x : State) (d : Dir), (x.ctrlStreamsBlocked d).1.rcore = x.rcore := by
+              intro x d; unfold State.ctrlStreamsBlocked State.ctrlMoveBlocked
+              dsimp only; split <;> split <;> rfl
+            have e3 : ∀ (l : List Nat) (x x' : State) (acc fs : List CtrlFrame),
+                x.ctrlMsd l acc = some (x', fs) → x'.rcore = x.rcore := by
+              intro l
+              induction l with
+              | nil => intro x x' acc fs hh; simp [State.ctrlMsd] at hh; rw [← hh.1]
+              | cons id rest ihl =>
+                intro x x' acc fs hh
+                unfold State.ctrlMsd at hh
+                osplit hh
+                all_goals first
+                  | exact ihl _ _ _ _ hh
+                  | via ihl _ _ _ _ hh
+            rw [e2, e2, e1, e1, e3 _ _ _ _ _ hm]
+            unfold State.ctrlMaxData; split <;> rfl
+        exact hmono (WDV.of_eq (wdv_of_rcore hc)) _
+    · have hro' : o.isRecvOp = false := by simpa using hro
+      have hv := rvw_step hs hro' hr
+      exact hmono (WDV.of_eq (wdv_of_rvw hv)) _
+
 end QM.Streams
